@@ -50,8 +50,13 @@ var mslCfg = &execcheck.Config{
 	PreOpts: func(t *rapid.T) (map[string]string, func(*wref.Config)) {
 		// the index policy (function / private / workgroup data and values) and the buffer policy
 		// (storage and uniform data) are drawn independently
-		pol := []string{"restrict", "rzsw"}[rapid.IntRange(0, 1).Draw(t, "policy")]
-		bufPol := []string{"restrict", "rzsw"}[rapid.IntRange(0, 1).Draw(t, "bufPolicy")]
+		pols := []string{"restrict", "rzsw"}
+		if ev.Excluded("msl.rzsw.value-index") {
+			// open finding C04-3: read-zero-skip-write reads are emitted as unparenthesised ?: expressions
+			pols = pols[:1]
+		}
+		pol := pols[rapid.IntRange(0, len(pols)-1).Draw(t, "policy")]
+		bufPol := pols[rapid.IntRange(0, len(pols)-1).Draw(t, "bufPolicy")]
 		o := map[string]string{"msl": []string{"1.2", "2.1", "3.0", "3.1"}[rapid.IntRange(0, 3).Draw(t, "msl")], "idx": pol, "buf": bufPol, "zeroinit": "1",
 			"bind": []string{"auto", "fake", "map"}[rapid.IntRange(0, 2).Draw(t, "bind")], "loopbound": strconv.Itoa(rapid.IntRange(0, 1).Draw(t, "loopbound"))}
 		if pol == "rzsw" {
